@@ -3,3 +3,5 @@ pub mod c02;
 pub mod c08;
 pub mod c12;
 pub mod c09;
+pub mod c10;
+pub mod c19;
